@@ -438,9 +438,9 @@ seq_t dtw_warping_paths{{ suffix }}{{ suffix2 }}(seq_t *wps,
         rvalue = wps[final_wpsi];
     } else if (return_dtw) {
         seq_t mir_value = {{infinity}};
-        idx_t mir_rel = 0;
+        idx_t mir_rel = l1;  // no smaller value found: nothing is skipped
         seq_t mic_value = {{infinity}};
-        idx_t mic = 0;
+        idx_t mic = l2;  // no smaller value found: nothing is skipped
         // Find smallest value in last column
         if (settings->psi_1e != 0) {
             wpsi = final_wpsi;
